@@ -59,6 +59,8 @@ MODELS = {
     "branchy": lambda: nets.build(H(([1, 16, 16, 8], "int8"), ["conv3x3", "branch_npu", "conv5x5_c24", "concat", "conv3x3", "add_res"]), 0),
     "softmax": lambda: nets.build(H(([1, 8, 8, 8], "int8"), ["softmax"]), 0),
     # two third-party custom operators with different custom codes (the operator-code table has two entries of one operator type) next to an NPU part
+    # PAD of the batch and the channel dimension: the only rewrite that edits a constant read from the file in place
+    "pad_nc": lambda: nets.build(H(([1, 4, 4, 6], "int8"), ["pad_nc"]), 0),
     "two_customs": lambda: nets.build(H(([1, 8, 8, 8], "int8"), ["cpu_custom", "cpu_custom_opt", "conv3x3"]), 0),
     # two networks whose first heuristic allocation is not optimal: the hill-climb search (random swaps) really runs
     "hc_search_a": lambda: nets.build(H(([1, 16, 16, 8], "int8"), ["concat", "conv5x5_c24", "conv5x5_c24"]), 0),
@@ -135,7 +137,13 @@ def run_event(ev, workdir):
             fn = vela.convert(src)
             return ("ok", open(fn, "rb").read(), b"")
         if entry == "convert_bytes":
-            return ("ok", bytes(vela.convert_bytes(bytearray(mb))), b"")
+            buf = bytearray(mb)
+            res = bytes(vela.convert_bytes(buf))
+            if bytes(buf) != bytes(mb):
+                # the caller's model bytes are an input, not scratch space: a second conversion of the same buffer would see another model
+                k = next(i for i in range(len(mb)) if buf[i] != mb[i])
+                return ("input-mutated", "convert_bytes changed the caller's buffer (first difference at byte %d)" % k)
+            return ("ok", res, b"")
     except SystemExit as e:
         return ("exit", e.code)
     except BaseException as e:  # noqa
